@@ -78,8 +78,11 @@ impl<T: Copy> Block for VectorSink<T> {
         if n > 0 {
             storage.0.extend(&i.slice()[..n]);
             storage.1.extend(tags);
-            i.consume(ilen);
         }
+        // Whatever doesn't fit is discarded, also when nothing fits. Leaving
+        // it in the stream would make this block wait for data it already has,
+        // forever, and stall everything upstream.
+        i.consume(ilen);
         Ok(BlockRet::WaitForStream(&self.src, 1))
     }
 }
